@@ -37,7 +37,8 @@ def LawsOhm (kind : Kind) (s : K) (cs : List (Cpt K)) (x : Ix → K) : Prop :=
 theorem lsum_zipIdx_congr (cs : List (Cpt K)) (f : Cpt K × Nat → K) (g : Cpt K → K)
     (h : ∀ ic ∈ cs.zipIdx, f ic = g ic.1) : lsum (cs.zipIdx.map f) = lsum (cs.map g) := by
   have : cs.zipIdx.map f = cs.zipIdx.map (fun ic => g ic.1) := List.map_congr_left h
-  rw [this, ← List.map_map, List.zipIdx_map_fst]
+  have h2 : cs.zipIdx.map (fun ic => g ic.1) = (cs.zipIdx.map Prod.fst).map g := by rw [List.map_map]; rfl
+  rw [this, h2, List.zipIdx_map_fst]
 
 /-- **laws_iff_ohm**: under the value guard the spec `Laws` (resistor current written V/r) says exactly KCL + v = r·i. -/
 theorem laws_iff_ohm (kind : Kind) (s : K) (cs : List (Cpt K)) (x : Ix → K) (hval : ValOK cs) :
